@@ -523,7 +523,7 @@ def c05_discrepancies(t, v, label, thunk, grid, refcache, st, count=True, seen=N
         if count and v in vs:
             st.inc("nontrivial")
     # (d) differentiate once more: second-order partials on the thin grid
-    if v in vs and not bad and M.size(rt) <= 60 and (TIER == "thorough" or M.size(t) <= 3):
+    if v in vs and not bad and M.size(rt) <= 60 and M.size(t) <= (4 if TIER == "thorough" else 3):
         for w in sorted(vs):
             try:
                 P2 = Partial(rexpr, w)
